@@ -1,11 +1,11 @@
 SPECIFICATION TSpec
 CONSTANTS
-  TolNum = 0
-  TolDen = 1
+  TolNum = 390625
+  TolDen = 64
   Scenes = {}
-  MaxIter = 12
+  MaxIter = 100
   MaxSteps = 400
-  Mode = "intersection"
+  Mode = "penetration"
   Variant = "lib"
 POSTCONDITION Consumed
 CHECK_DEADLOCK FALSE
